@@ -134,23 +134,31 @@ rfc1055_encode_octet(Sink *sink, unsigned char data)
 }
 
 static inline int
-rfc1055_decode_octet(Source *source, unsigned char *data)
+rfc1055_decode_octet(RFC1055Context *ctx, Source *source, unsigned char *data)
 {
     int rv = 1;
-    unsigned char first;
+    unsigned char first = RAW_ESC;
     /* Guarantee that the data return value is initialised, no matter the
      * behaviour of the source implementation. This is important with the
      * EILSEQ return code, which this SLIP decoder uses. While unlikely that
      * the source returns that particular error code, it is not impossible.
      * Modern compilers even warn about this. */
     *data = 0u;
-    MAYBE_RETURN(source_get_octet(source, &first));
+    if (ctx->state != RFC1055_ESCAPE) {
+        MAYBE_RETURN(source_get_octet(source, &first));
+    }
     switch (first) {
     case RAW_ESC:
     {
         rv++;
         unsigned char second;
+        /* The first octet of the sequence is consumed. If the source cannot
+         * deliver the second one right now (-EAGAIN, -EINTR...), the context
+         * has to remember that, so the next call resumes the sequence instead
+         * of taking its second octet for payload. */
+        ctx->state = RFC1055_ESCAPE;
         MAYBE_RETURN(source_get_octet(source, &second));
+        ctx->state = RFC1055_NORMAL;
         switch (second) {
         case ESC_EOF: *data = RAW_EOF; break;
         case ESC_ESC: *data = RAW_ESC; break;
@@ -224,9 +232,10 @@ rfc1055_decode(RFC1055Context *ctx, Source *source, Sink *sink)
             }
             break;
         }
+        case RFC1055_ESCAPE: /* FALLTHROUGH */
         case RFC1055_NORMAL: /* FALLTHROUGH */
         default: {
-            const int rc = rfc1055_decode_octet(source, &data);
+            const int rc = rfc1055_decode_octet(ctx, source, &data);
             if (rc == -EILSEQ) {
                 if (BIT_ISSET(ctx->flags, RFC1055_WITH_SOF)) {
                     ctx->state = (data == RAW_EOF)
